@@ -44,6 +44,10 @@ def run(ctx):
     from . import C15
     ctx.do(C15.rule_no_relabel, rule_id="C05.instants-not-relabelled")
     ctx.do(C15.rule_truncated_in_utc, rule_id="C05.instants-not-relabelled")
+    # "strictly newer" is judged on the value as it will be WRITTEN: a supplied modified time goes through the truncation of its
+    # slot (millisecond, exact for 2.0) before it is compared -- every path through parse_into_datetime attaches and applies
+    # the slot's precision, a shortcut for values that "already have it" lets sub-millisecond digits through the comparison
+    ctx.do(C15.rule_truncate, rule_id="C05.granularity")
     # the object (or dict) a new version is derived from is left exactly as it was: effect analysis of C13 over the versioning
     # and marking entry points
     from . import C13
@@ -314,19 +318,46 @@ def rule_unmodifiable(ctx):
             return any((isinstance(x_, ast.Subscript) and norm(x_.value) == kwp and isinstance(x_.slice, ast.Constant) and x_.slice.value == "custom_properties")
                        or (isinstance(x_, ast.Call) and isinstance(x_.func, ast.Attribute) and x_.func.attr == "get" and norm(x_.func.value) == kwp
                            and x_.args and isinstance(x_.args[0], ast.Constant) and x_.args[0].value == "custom_properties") for x_ in ast.walk(e))
+        # ... ALL of them: a filter on the way (a comprehension with a condition, a set difference, a conditional expression)
+        # takes some names out of the test again -- `if prop not in <the class's table>` takes out exactly the spec-defined ones,
+        # the only ones the test is about
+        def unfiltered(e):
+            return not any((isinstance(x_, ast.comprehension) and x_.ifs) or isinstance(x_, ast.IfExp)
+                           or (isinstance(x_, ast.BinOp) and isinstance(x_.op, (ast.Sub, ast.BitAnd)))
+                           or (isinstance(x_, ast.Call) and isinstance(x_.func, ast.Attribute) and x_.func.attr in (
+                               "difference", "intersection", "filter")) or (isinstance(x_, ast.Call) and norm(x_.func) in ("filter", "itertools.filterfalse"))
+                           for x_ in ast.walk(e))
         okc = False
+        filtered = None
         if member is not None:
             if reads_custom(member):
                 okc = True
             mname = norm(member)
             for n_ in body_walk(fi.node):
+                src = None
                 if isinstance(n_, ast.Assign) and norm(n_.targets[0]) == mname and reads_custom(n_.value):
-                    okc = True
+                    src = n_.value
                 if isinstance(n_, ast.AugAssign) and norm(n_.target) == mname and reads_custom(n_.value):
-                    okc = True
+                    src = n_.value
                 if isinstance(n_, ast.Call) and isinstance(n_.func, ast.Attribute) and n_.func.attr in ("update", "add", "union") \
                         and norm(n_.func.value) == mname and any(reads_custom(a_) for a_ in n_.args):
-                    okc = True
+                    src = next(a_ for a_ in n_.args if reads_custom(a_))
+                if src is not None:
+                    if unfiltered(src):
+                        okc = True
+                    else:
+                        filtered = src
+        if filtered is not None and not okc:
+            run.violation(R, key(m.relpath, fi.qualname, "every-channel-of-change"),
+                          "the names given in `custom_properties` reach the unmodifiable / identifier-contributing test only through "
+                          "a filter: the names it takes out are not tested, yet the constructor takes their values from that "
+                          "argument -- new_version(custom_properties={'created': X}) changes the creation time of the new version",
+                          file=m.relpath, line=filtered.lineno, function=fi.qualname,
+                          expected="every name in kwargs['custom_properties'] is tested", found=short(filtered, 140))
+            okc = None
+    if chained and okc is None:
+        pass
+    elif chained:
         run.check(okc, R, key(m.relpath, fi.qualname, "every-channel-of-change"),
                   "the unmodifiable / identifier-contributing test looks at the keyword names only, but the constructor also takes "
                   "property values from the `custom_properties` argument (for spec-defined names too): "
